@@ -123,6 +123,9 @@ func (csm *conditionalStorageMiddleware) ListBuckets(ctx context.Context) ([]sto
 	allBuckets = append(allBuckets, buckets...)
 
 	slices.SortFunc(allBuckets, func(a storage.Bucket, b storage.Bucket) int { return strings.Compare(a.Name.String(), b.Name.String()) })
+	// A storage that serves several mapped buckets is queried once per map entry;
+	// every bucket name must still be listed once.
+	allBuckets = slices.CompactFunc(allBuckets, func(a storage.Bucket, b storage.Bucket) bool { return a.Name.String() == b.Name.String() })
 	return allBuckets, nil
 }
 
